@@ -183,6 +183,9 @@ func runC13(p *Prog, r *Report) {
 		r.Count("c13.hook_calls", n)
 		r.Floor(R, "c13.hook_calls", 3)
 	}
+	// the allocator's cursor only moves forward: Get advances it, nothing else touches it (a
+	// Free that steps it back hands the id of a connection that has just gone to the next one)
+	q.OnlyIn("C13.8/allocator", "writers-of-next", p.PostPubWritersOf("internal/core.pipeIDAllocator.next"), []string{"internal/core.(*pipeIDAllocator).Get"}, []string{"internal/core.(*pipeIDAllocator).Get"})
 	// what a pipe says about where it came from never changes after it was built
 	for _, fld := range []string{"d", "l", "s", "p", "id"} {
 		q.OnlyIn("C13.9/provenance", "writers-of-pipe."+fld+"-after-construction", p.PostPubWritersOf("internal/core.pipe."+fld), []string{}, nil)
